@@ -136,6 +136,7 @@ class _Instrument:
         self.anc: list[int] = []          # indices (1-based) of the recorded ancestors of the node being visited
         self.sid = 0
         self.nloops = 0
+        self.loopstack: list[int] = []
         self.ntry = 0
         self.alias = alias
 
@@ -314,7 +315,9 @@ class _Instrument:
             it = self.expr(s.iter)
             names, extra = self._target_names(s.target)
             k = self.new_store(names, self.reads(s.iter) + extra, self._root(it))
+            self.loopstack.append(L)
             body = [self.mark("it", L), self.mark("s", k)] + self.block(s.body)
+            self.loopstack.pop()
             orelse = ([self.mark("lx", L)] + self.block(s.orelse)) if s.orelse else []
             new = ast.copy_location(ast.For(target=s.target, iter=it, body=body, orelse=orelse), s)
             return [self.mark("le", L), new, self.mark("lx", L)]
@@ -324,7 +327,9 @@ class _Instrument:
             test = ast.BoolOp(op=ast.And(), values=[ast.Call(func=ast.Name(id="__mk__", ctx=ast.Load()),
                                                              args=[ast.Constant(value="it"), ast.Constant(value=L)], keywords=[]),
                                                     self.expr(s.test)])
+            self.loopstack.append(L)
             body = self.block(s.body)
+            self.loopstack.pop()
             orelse = ([self.mark("lx", L)] + self.block(s.orelse)) if s.orelse else []
             new = ast.copy_location(ast.While(test=test, body=body, orelse=orelse), s)
             return [self.mark("le", L), new, self.mark("lx", L)]
@@ -349,7 +354,9 @@ class _Instrument:
                     marks.append(self.mark("s", self.new_store(names, self.reads(it.context_expr) + extra, self._root(ce))))
             self.ntry += 1
             T = self.ntry
-            return [self.mark("te", T), ast.copy_location(ast.With(items=items, body=marks + self.block(s.body, top=True) + [self.mark("tn", T)]), s),
+            # (wj: the block contains a break / continue statement, see MiniPyTrace "wj")
+            has_jump = any(isinstance(nd, (ast.Break, ast.Continue)) for b in s.body for nd in ast.walk(b))
+            return [self.mark("wj" if has_jump else "we", T), ast.copy_location(ast.With(items=items, body=marks + self.block(s.body, top=True) + [self.mark("wn", T)]), s),
                     self.mark("wq", T)]
         if isinstance(s, ast.Match):
             subj = self.expr(s.subject)
@@ -552,7 +559,7 @@ def prepare(src: str) -> dict:
         info["err"] = start in rejected or (info["k"] == "Call" and any(start <= q < end for q in in_call))
         if pos not in by_pos:
             inferred.append(None)
-            why.append("not-annotated")
+            why.append("pseudo-node" if info["k"] == "OldValue" else "not-annotated")
         else:
             t = by_pos[pos]
             inferred.append(t)
@@ -570,7 +577,7 @@ def execute(prep: dict, ax: dict, ay: dict) -> tuple[list[dict], dict[str, int]]
     codec.WIDE = True
     events: list[dict] = []
     nodes, inferred, why = prep["nodes"], prep["inferred"], prep["why"]
-    cnt = {"judged": 0, "skipped:constant": 0, "skipped:not-annotated": 0, "skipped:inferred-outside-universe": 0,
+    cnt = {"judged": 0, "skipped:constant": 0, "skipped:pseudo-node": 0, "skipped:not-annotated": 0, "skipped:inferred-outside-universe": 0,
            "skipped:value-outside-universe": 0, "skipped:value-too-big": 0}
     state = {"stop": False}
 
@@ -742,28 +749,137 @@ def judge(check: core.Check, cases: list[dict], label: str) -> None:
         check.sample({"source": label, "src": o["src"].split("def f(")[1], "args": o["args"], "evals": evs})
 
 
+# --------------------------------------------------------------------------- self-tests (sensitivity)
+def _o(x: Any) -> dict:
+    codec.WIDE = True
+    return codec.py_to_obj(x)
+
+
+# canned functions: (name, header, body lines, x, y, verdict every unsound event of the execution must get)
+CANNED = [
+    ("numeric", "def f(x: Union[int, None], y: int):",
+     ["if isinstance(x, float):", "    v = 1", "else:", "    v = tolist(x)"], 1, 0, "dev:numeric-promotion-lost-by-isinstance"),
+    ("loop", "def f(x: Optional[str], y: int):", ["for e in (1, 'a'):", "    x = tolist(x)"], "a", 0,
+     "dev:loop-carried-growth-not-at-fixpoint"),
+    ("tuple-add", "def f(x: tuple[int, str], y: tuple[float, ...]):", ["v = x + y"], (1, "a"), (1.5,),
+     "dev:tuple-add-drops-left-operand"),
+    ("tuple-iadd", "def f(x: tuple[int, str], y: tuple[float, ...]):", ["x += y"], (1, "a"), (1.5,),
+     "dev:tuple-add-drops-left-operand"),
+    ("match-leaves", "def f(x: object, y: int):",
+     ["if isinstance(x, str):", "    pass", "else:", "    match x:", "        case int():", "            pass", "        case _:",
+      "            v = 'a'"], 1.5, 0, "dev:exhaustive-match-leaves-block"),
+    ("unmodelled", "def f(x: int, y: int):", ["m.insert(0, x)"], 1, 0, "dev:unmodelled-container-mutator"),
+    ("mutation-lost", "def f(x: int, y: int):", ["try:", "    m.append(None)", "    firstkey(x)", "except Exception:", "    v = len(m)"], 1, 0,
+     "dev:mutation-lost-on-exception-path"),
+    ("with-mutation", "def f(x: int, y: int):", ["with maybe_suppress():", "    m.append(1)"], 1, 0, "dev:mutation-lost-on-exception-path"),
+    ("jump-in-with", "def f(x: int, y: int):", ["with suppress(Exception):", "    while y:", "        continue", "    v = 'a'"], 1, 0,
+     "dev:loop-jump-in-suppressing-with"),
+    ("abstract-truthy", "def f(x: Iterable[str], y: int):", ["v = (not x)"], [], 0, "dev:abstract-type-assumed-truthy"),
+    ("extend-literal", "def f(x: list[int], y: int):", ["x += 'a'"], [1], 0, "dev:list-extend-literal-str-unchecked"),
+    ("cross-eq", "def f(x: float, y: int):", ["if x == 1:", "    v = [x]"], 1.0, 0, "dom:cross-type-equality"),
+    ("variadic", "def f(x: tuple[str, *tuple[int, ...]], y: tuple[int, ...]):", ["v = min(x, y)"], ("a", 1), (), "dom:variadic-tuple-leniency"),
+    ("rejected", "def f(x: str, y: int):",
+     ["while x == 'a':", "    match x:", "        case Color.RED:", "            x = [x]", "        case (a, b):", "            x = (not x)",
+      "    return x[0]"], "a", 0, "dom:value-of-rejected-expression"),
+    ("clean", "def f(x: Union[int, None], y: int):", ["if x is None:", "    v = 'a'", "else:", "    v = x + 1", "for e in (1, 2):", "    w = e"],
+     1, 0, ""),
+]
+
+
+def selftest(check: core.Check) -> None:
+    """Sensitivity of the trace specification, on real executions of canned functions:
+    (1) every known-deviation / domain class is reachable: the canned function of the class yields unsound events, and TLC
+        files all of them under exactly that class;
+    (2) no class masks anything else: in the same executions, an additional unsound observation that the mechanism does
+        not explain (the inferred type of an untouched variable's read replaced by Literal[None] / Never) is reported as
+        viol:Sound / viol:NeverIsNeverReached, although the program contains the deviating construct (the former
+        program-level classes excused it)."""
+    obs, expect = [], {}
+    none_t = {"k": "known", "o": {"c": "NoneType", "v": "None", "items": []}}
+    never_t = {"k": "union", "ms": []}
+    for ci, (name, header, body, ax, ay, verdict) in enumerate(CANNED):
+        case = {"header": header, "body": body, "argsx": [_o(ax)], "argsy": [_o(ay)]}
+        got = observe_case((1000 * (ci + 1), case))
+        if len(got) != 1 or not got[0].get("ev"):
+            raise core.MachineryError(f"self-test {name}: the canned function produced no execution: {got[:1]}")
+        o = got[0]
+        obs.append(o)
+        expect[o["tid"]] = (name, verdict, None)
+        # corrupted copies: the read of y in the epilogue (match-leaves: the first read of x, before the block ends)
+        target = "x" if name in ("match-leaves", "rejected") else "y"
+        idxs = [i for i, e in enumerate(o["ev"]) if e["k"] == "e" and e["j"] and o["nodes"][e["n"] - 1]["t"] == target]
+        if not idxs:
+            raise core.MachineryError(f"self-test {name}: no judged read of {target}")
+        at = idxs[0] if target == "x" else idxs[-1]
+        for k, (bad, clause) in enumerate(((none_t, "viol:Sound"), (never_t, "viol:NeverIsNeverReached")), start=1):
+            ev = [dict(e) for e in o["ev"]]
+            ev[at]["i"] = bad
+            oc = {**o, "tid": o["tid"] + k, "ev": ev}
+            obs.append(oc)
+            expect[oc["tid"]] = (name + "+corrupted", verdict, (at + 1, clause))
+    verdicts, stats = adjudicate(obs)
+    check.add_trace_stats(stats)
+    seen = {}
+    for o in obs:
+        name, verdict, corrupted = expect[o["tid"]]
+        vs = [parse_verdict(v) for v in verdicts.get(o["tid"], [])]
+        got = {f"{k}:{key}" for k, key, idx in vs if corrupted is None or idx != corrupted[0]}
+        want = {verdict} if verdict else set()
+        if got != want:
+            raise core.MachineryError(f"self-test {name}: expected the unsound events to be filed as {want or 'none'}, TLC said {sorted(got)}")
+        if corrupted is not None:
+            mine = {f"{k}:{key}" for k, key, idx in vs if idx == corrupted[0]}
+            if mine != {corrupted[1]}:
+                raise core.MachineryError(f"self-test {name}: the corrupted observation must be {corrupted[1]}, TLC said {sorted(mine)}")
+        seen[name] = sorted(got)
+    check.cov["selftest"] = {"canned_functions": len(CANNED), "observations": len(obs),
+                             "classes_reached": sorted({v for vs in seen.values() for v in vs}),
+                             "corrupted_observations_rejected": 2 * len(CANNED)}
+
+
 def run(check: core.Check) -> None:
     quick = check.tier == "quick"
     rnd = random.Random(check.seed)
     check.assumptions += [
         "runtime values come from instrumented execution of the same source under CPython 3.12; values and inferred types "
-        "outside the term universe (other classes, callables, TypedDict) are not judged (counted in the evidence)",
-        "programs do not mutate containers through aliases; executions are cut after 160 recorded events",
+        "outside the term universe (other classes, generators, bound methods, unsolved type variables) are not judged "
+        "(counted per reason in coverage.node_evaluations)",
+        "the inferred type of a node is the union of the values the checking phase computed for it (a node inside a "
+        "comprehension over a tuple of known length is visited once per element), read at visit time through wrappers around "
+        "NameCheckVisitor.visit / composite_from_node that do not change the checker's behaviour",
+        "domain (not findings, counted as dom:* in coverage.unsound_events_by_verdict): narrowing by == / in / literal patterns is "
+        "claimed only for type-respecting equality (as in C02); the value of an expression the checker rejected with an error is "
+        "not claimed; a variadic tuple[T, ...] accepted for a shaped tuple is the leniency documented for C04",
+        "programs mutate only the two local containers m and d, never through an alias; executions are cut after "
+        f"{EVENT_CAP} recorded events or when a value outgrows the universe's bounds",
     ]
+    selftest(check)
+    # every single-statement body over x (exhaustive over statements x TX); bodies mentioning y and longer bodies by simulation
     em = core.require_ok(core.run_tlc("MiniPyEmit", "MiniPy.emit1.cfg", timeout=1800), "MiniPy emit")
     check.add_tlc("emit1", em)
-    cases = core.emitted_json(em)
-    n1 = 3000 if quick else 54000
-    if len(cases) > n1:
-        cases = rnd.sample(cases, n1)
-    sim = core.simulate_cases("MiniPyEmit", "MiniPy.sim.cfg", 3000 if quick else 60000, depth=40, seed=check.seed + 6,
-                              check=check, first_num=2000)
+    singles = core.emitted_json(em)
+    check.cov["single_statement_functions_enumerated"] = len(singles)
+    n1 = 2500 if quick else 31000
+    if len(singles) > n1:
+        singles = rnd.sample(singles, n1)
+    singles_y = core.simulate_cases("MiniPyEmit", "MiniPy.sim1y.cfg", 1200 if quick else 12000, depth=12, seed=check.seed + 3,
+                                    check=check, first_num=400 if quick else 4000)
+    sim = core.simulate_cases("MiniPyEmit", "MiniPy.sim.cfg", 3000 if quick else 40000, depth=45, seed=check.seed + 6,
+                              check=check, first_num=1200 if quick else 12000)
     check.cov["exhaustive"] = False
-    check.cov["rule"] = ("functions generated by TLC (every single-statement body x every pair of parameter types, sampled; longer "
-                         "bodies by simulation) x argument tuples drawn by TLC from the declared types; non-trivial = distinct "
-                         "source texts with at least one judged node evaluation")
-    judge(check, cases, "tlc-single-statement")
+    check.cov["rule"] = (
+        "functions generated by TLC: every single-statement body over x (assignment, unpacking, augmented assignment, expression, "
+        "return, assert, saved condition, container mutation; 219 expressions, 97 tests, 9 unpack targets) x each of 29 "
+        "parameter types (sampled in quick); single statements mentioning y x pairs of types and bodies of up to 6 statements / "
+        "depth 3 (if/else, while/for with else, break/continue, try/except/else/finally, with, match with guards, early "
+        "return/raise) by TLC simulation; x argument tuples drawn by TLC from the declared types (at most 6 per function); "
+        "non-trivial = distinct source texts with at least one judged node evaluation")
+    judge(check, singles, "tlc-single-statement")
+    judge(check, singles_y, "tlc-single-statement-xy")
     judge(check, sim, "tlc-simulate")
+    ev = check.cov.get("node_evaluations", {})
+    tot = sum(v for k, v in ev.items() if k not in ("skipped:constant", "skipped:pseudo-node"))
+    check.cov["skipped_share"] = round(1 - ev.get("judged", 0) / tot, 4) if tot else None
 
 
 def replay(check: core.Check, witness: dict) -> None:
